@@ -1222,9 +1222,31 @@ func (e *Engine) declareSpec(env *Env, sf *SpecFunc) {
 		}
 		return
 	}
-	body := e.eval(benv, sf.Body)
-	body = e.materialize(body, rt)
-	bt := e.flatten(rt, body.V)[0]
+	// A body that cannot be expressed in the current encoding (bit-level
+	// operators in int mode) leaves the function uninterpreted here: sound, the
+	// bit-level meaning is then only available to bv-mode functions and lemmas.
+	bt, ok := func() (t string, ok bool) {
+		nd := e.vc.noDef
+		defer func() {
+			if r := recover(); r != nil {
+				e.vc.noDef = nd
+				if _, isSpec := r.(specErr); !isSpec {
+					panic(r)
+				}
+				ok = false
+			}
+		}()
+		e.vc.noDef++
+		body := e.eval(benv, sf.Body)
+		e.vc.noDef--
+		body = e.materialize(body, rt)
+		return e.flatten(rt, body.V)[0], true
+	}()
+	if !ok {
+		e.vc.decls = append(e.vc.decls, fmt.Sprintf("(declare-fun %s (%s) %s)", sf.Name, strings.Join(psorts, " "), rl[0].Sort))
+		e.vc.note("spec " + sf.Name + " is uninterpreted in the " + e.ar.mode.String() + " encoding")
+		return
+	}
 	e.vc.decls = append(e.vc.decls, fmt.Sprintf("(define-fun %s (%s) %s %s)", sf.Name, strings.Join(binders, " "), rl[0].Sort, bt))
 }
 
